@@ -7,12 +7,12 @@
    peer store taken after the call.  The call is applied as the specification's action; reply
    and projection are stored in `hand` / `obs` and judged by the invariants of Handout (one per
    clause of C26) and the projection invariants below, so that a rejected history names the
-   clause it breaks.  The history's configuration (limit, policy, TTL, origins per torrent,
-   strict or F26-tolerant mode) comes with the reset record.                                 *)
+   clause it breaks.  The history's configuration (limit, policy, TTL, origins per torrent)
+   comes with the reset record.                                                              *)
 EXTENDS Handout, Json
 Trace == ndJsonDeserialize("trace.ndjson")
 VARIABLES l, obs
-tvars == <<ann, last, now, ttl, reply, orig, limit, policy, strictSelf, hand, l, obs>>
+tvars == <<ann, last, now, ttl, reply, orig, limit, policy, hand, l, obs>>
 R == Trace[l]
 
 NoObs == [valid |-> FALSE, ann |-> <<>>, last |-> <<>>, now |-> 0, idx |-> TRUE]
@@ -34,14 +34,14 @@ TraceInit == /\ TLCSet(1, 0) /\ l = 1 /\ obs = NoObs
              /\ ann = [h \in Hashes |-> Nobody] /\ last = [h \in Hashes |-> 0] /\ now = 0
              /\ ttl = (CHOOSE x \in TTLs : TRUE) /\ reply = NoReply
              /\ orig = [h \in Hashes |-> {}] /\ limit = (CHOOSE x \in Limits : TRUE)
-             /\ policy = (CHOOSE x \in Policies : TRUE) /\ strictSelf = TRUE /\ hand = NoHand
+             /\ policy = (CHOOSE x \in Policies : TRUE) /\ hand = NoHand
 IsEvent(e) == l <= Len(Trace) /\ Trace[l].ev = e /\ l' = l + 1
 
 TReset == /\ IsEvent("reset")
           /\ ann' = [h \in Hashes |-> Nobody] /\ last' = [h \in Hashes |-> 0]
           /\ now' = 0 /\ ttl' = R.cfg.ttl /\ reply' = NoReply
           /\ orig' = [h \in Hashes |-> Range(R.cfg.orig[h])]
-          /\ limit' = R.cfg.limit /\ policy' = R.cfg.policy /\ strictSelf' = R.cfg.strict
+          /\ limit' = R.cfg.limit /\ policy' = R.cfg.policy
           /\ hand' = NoHand /\ obs' = NoObs
 
 Seen(e) == IsEvent(e) /\ obs' = ObsOf(R) /\ UNCHANGED hcfg
